@@ -214,6 +214,22 @@ def check_newmark(sysname, M, B, K, h, fname, icname, rfname, nlname, tier, res)
             again = ts.tsolve(F.copy(), d0=d0, v0=v0)
         if not all(np.array_equal(getattr(again, nm), getattr(sol, nm)) for nm in "dva"):
             msgs.append("SolveNewmark instance reused for a second identical tsolve gives a different answer")
+        # a different load case of the same length on the same object: equals a fresh object's answer, and the
+        # solution returned earlier (d, v, a and the nonlinear outputs z) is left untouched
+        snap = {nm: np.array(getattr(sol, nm)) for nm in "dva"}
+        zsnap = {k: np.array(z) for k, z in sol.z.items()} if nl else {}
+        F2 = (F[:, ::-1] * 0.5).copy()
+        with warnings.catch_warnings():
+            warnings.simplefilter("ignore")
+            second = ts.tsolve(F2.copy(), d0=d0, v0=v0)
+            ts2 = ode.SolveNewmark(M, B, K, h, rf=rf if rf else None)
+            if nl:
+                ts2.def_nonlin(nl)
+            fresh = ts2.tsolve(F2.copy(), d0=d0, v0=v0)
+        if not all(np.array_equal(getattr(second, nm), getattr(fresh, nm)) for nm in "dva") or (nl and any(not np.array_equal(second.z[k], fresh.z[k]) for k in fresh.z)):
+            msgs.append("SolveNewmark instance reused for another load case gives a different answer than a fresh instance")
+        if not all(np.array_equal(getattr(sol, nm), snap[nm]) for nm in "dva") or any(not np.array_equal(sol.z[k], zsnap[k]) for k in zsnap):
+            msgs.append("the solution returned by an earlier tsolve was modified by a later tsolve on the same SolveNewmark object")
     except Exception as e:  # noqa
         msgs.append("SolveNewmark reuse raised %r" % (e,))
     return msgs, True
